@@ -240,7 +240,7 @@ def run_gen(spec: dict) -> dict:
         # verdict of this bisection step, with the expressions of `poisson` (float glue): 0 within tolerance, 1 below, 2 above
         fa = frames[-1].get("args")
         if fa is not None:
-            m2 = np.asarray(mask) | S.centered_disk_mask((nx, ny), fa[2])
+            m2 = np.asarray(mask)
             if getattr(f, "crop_corner", False):
                 x, y = np.mgrid[:nx, :ny]
                 x = np.maximum(abs(x - nx / 2), 0)
@@ -248,6 +248,7 @@ def run_gen(spec: dict) -> dict:
                 y = np.maximum(abs(y - ny / 2), 0)
                 y /= y.max()
                 m2 = m2 * (np.sqrt(x ** 2 + y ** 2) < 1)
+            m2 = m2 | S.centered_disk_mask((nx, ny), fa[2])
             with np.errstate(all="ignore"):
                 actual = nx * ny / m2.sum()
             frames[-1].setdefault("verdicts", []).append(0 if abs(actual - fa[3]) < f.tol else 1 if actual < fa[3] else 2)
